@@ -16,6 +16,14 @@ CLAIMS = {
     "C03": ("Lean theorems: remove_node returns the head of the dead node's book as the crash item and the tail to the pool (load, worksteal); "
             "with any number of crashes every index is outstanding, completed or crash-reported exactly once",
             "contract refinement + ledger invariant with crash ghost (Lean 4) ; differential correspondence incl. crash/replacement sequences"),
+    "C05": ("Lean theorems over the two-thread worker model, for every interleaving of receiver steps (put/steal/shutdown, also behind the marker) with "
+            "main-thread steps: executed/held/queued tests form a subsequence of the received stream whose missing elements are exactly the replied ones; "
+            "next-item announcements form a chain ending in the held entry; a steal never touches started or announced tests",
+            "invariant by induction over arbitrary step lists (Lean 4) ; differential correspondence on the real WorkerInteractor threads with pre-emption at lock releases"),
+    "C07": ("Lean theorems: the atomic steal removes all requested tests or none (duplicate-free queue), replies exactly what it removed (unconditionally), "
+            "the rest still runs in order; controller side: a steal act needs no outstanding request, asks for a book suffix leaving two, and the reply is "
+            "processed as the contract's unsched act, which the ledger theorem accepts",
+            "worker-model theorems + contract refinement (Lean 4) ; differential correspondence of worker threads and of the worksteal scheduler"),
     "C15": ("Lean theorems: mark_test_pending inserts at the front of the pool; per index #completed + #crash-reported = 1 + #re-queued when the ledger is empty; "
             "unsupported modes raise NotImplementedError",
             "ledger invariant with re-queue ghost (Lean 4) ; differential correspondence with markPending ops"),
